@@ -185,3 +185,27 @@ def c09(F, R, tier):
           '1−alpha; Fisher recursion constants; self-normalised flex outputs; Fisher window extrema are rescanned. ' + PARTIAL)
 def c11(F, R, tier):
     e_lti_props.run_c11(F, R, tier)
+
+
+from . import e_trend
+
+
+@register('C06', 'other',
+          'Trend indicators, loop-nest and weight structure: NET compares every pair of window values exactly once (pair count = '
+          'denominator n(n−1)/2, enumerated for n = 2..9/24 with symbolic window values), with +1/−1/0 for newer >/</= older; '
+          'CenterOfGravity weights the k-th newest value by k in the numerator and 1 in the denominator, constant (n+1)/2, zero-denominator '
+          'guard; CTI accumulates Σx, Σt, Σx², Σxt, Σt² over the whole window, reports Pearson\'s r of them under both variance guards > 0. ' + PARTIAL)
+def c06(F, R, tier):
+    e_trend.run_c06(F, R, tier)
+
+
+from . import e_range
+
+
+@register('C07', 'other',
+          'Range-by-construction only: Tanh in [-1,1], LaguerreRSI in [0,1] (cu, cd are sums of differences taken under the matching >= '
+          'guard, output cu/(cu+cd) under cu+cd != 0), WelfordOnline/WelfordRolling >= 0, GTE >= clip and LTE <= clip, |Fisher| <= ln 199 '
+          '(clamp ±0.99 before 0.5·ln + 0.5 feedback), Drawdown running maximum from 0, NET in [-1,1] (unit steps over exactly n(n-1)/2 '
+          'pairs) — by interval/sign analysis of the value graph. All clauses that rest on cancellation or rounding are declined. ' + PARTIAL)
+def c07(F, R, tier):
+    e_range.run_c07(F, R, tier)
